@@ -4,7 +4,7 @@ Line-protocol driver for C08 (one output line per input line).
 
 ```
 opt     <mode> <gap> <a> <b> <k2> <matrix>                                → ok <score>
-chk     <mode> <gap> <a> <b> <k2> <matrix> <maxNumber> <score> <traces>   → ok n=<n> valid=<k> scored=<k> sound=<k> distinct=<0|1> count=<0|1>
+chk     <mode> <gap> <a> <b> <k2> <matrix> <maxNumber> <score> <traces>   → ok n=<n> valid=<k> scored=<k> sound=<k> distinct=<0|1> count=<0|1> model=<0|1>
 rescore <tp>   <gap> <a> <b> <k2> <matrix> <trace>                        → ok <score> | ERR:IndexError
 ```
 mode `g|s|l`; gap `L:<g>` or `A:<open>:<ext>`; `<a>`,`<b>` code lists (`_` = empty); matrix row-major with `k2`
@@ -68,8 +68,21 @@ def step (_ : Unit) (line : String) : Unit × String :=
           | none => false
         let sound := ts.map fun t => checkAlignment a b M gap mode t sc
         let n := nTraces mode gap M a b mx
+        -- traceback model (linear, one start cell): every real trace must be one the model's `followLin` yields
+        let modelOk : Bool := match gap, mode with
+          | .lin g, .global | .lin g, .semi =>
+            let np := nPaths mode gap M a b
+            if np > 300 then true else
+            let tbl := fillLin mode M g a b
+            let V : Nat → Nat → Int := fun i j => (tbl.getD i []).getD j 0
+            let model := tracesLin mode M g a b V np
+            model.length == np && alns.all fun o => match o with
+              | some aln => model.contains aln
+              | none => false
+          | _, _ => true
         s!"ok n={n} valid={count valid} scored={count scored} sound={count sound} " ++
-        s!"distinct={if distinctNonEmpty ts then 1 else 0} count={if ts.length ≤ mx then 1 else 0}"
+        s!"distinct={if distinctNonEmpty ts then 1 else 0} count={if ts.length ≤ mx then 1 else 0} " ++
+        s!"model={if modelOk then 1 else 0}"
       | _, _, _, _, _, _, _, _ => "bad-op"
     | ["rescore", tp, gap, a, b, k2, mat, trace] =>
       match parseGap gap, parseNats a, parseNats b, parseMat k2 mat, parseTrace trace with
